@@ -129,6 +129,8 @@ type World struct {
 	AutoRelease  bool // answer the client's PUBREC for inbound QoS 2 messages with PUBREL
 	InboundTopic string
 	ChunkWrites  bool // C10: observe chunked writes (set per transport)
+	NoPingResp   bool // the broker does not answer PINGREQ
+	ManualAcks   bool // the broker does not answer PUBLISH / PUBREL / SUBSCRIBE / UNSUBSCRIBE by itself (C07 scripts)
 
 	mu        sync.Mutex
 	conns     []*Transport
@@ -325,10 +327,8 @@ func (w *World) Dial(ctx context.Context) (*mqtt.BaseClient, error) {
 		return nil, ErrDial
 	}
 	t := newTransport(w, len(w.conns)+1)
-	w.conns = append(w.conns, t)
-	w.Rec.Emit(Event{"e": "Dial", "n": n, "res": "ok", "g": t.G, "open": open})
-	w.mu.Unlock()
 	cli := &mqtt.BaseClient{Transport: t}
+	t.Client = cli
 	g := t.G
 	cli.ConnState = func(s mqtt.ConnState, err error) {
 		es := ""
@@ -337,7 +337,9 @@ func (w *World) Dial(ctx context.Context) (*mqtt.BaseClient, error) {
 		}
 		w.Rec.Emit(Event{"e": "ConnState", "g": g, "s": s.String(), "err": es, "cls": ErrClass(err)})
 	}
-	t.Client = cli
+	w.conns = append(w.conns, t)
+	w.Rec.Emit(Event{"e": "Dial", "n": n, "res": "ok", "g": t.G, "open": open})
+	w.mu.Unlock()
 	return cli, nil
 }
 
@@ -484,6 +486,12 @@ func (w *World) clientPacket(t *Transport, p *Pkt) error {
 	}
 	// processed by the broker
 	resp, deliv := w.process(t, p, ev)
+	if w.NoPingResp && p.Type == 0xC0 {
+		resp = nil
+	}
+	if w.ManualAcks && (p.Type == 0x30 || p.Type == 0x60 || p.Type == 0x80 || p.Type == 0xA0) {
+		resp = nil
+	}
 	ev["deliv"] = deliv
 	ev["ok"] = true
 	respName := ""
@@ -748,6 +756,13 @@ func (t *Transport) send(raw []byte) {
 		case 0x40, 0x50, 0x60, 0x70, 0x90, 0xB0:
 			if len(p.Body) >= 2 {
 				meta["id"] = u16(p.Body)
+			}
+			if p.Type == 0x90 && len(p.Body) >= 2 {
+				codes := []int{}
+				for _, c := range p.Body[2:] {
+					codes = append(codes, int(c))
+				}
+				meta["codes"] = codes
 			}
 		}
 	}
